@@ -129,6 +129,10 @@ type graphMemoizer struct {
 	memO map[string][]*triple.Object
 	memT map[string][]*triple.Triple
 	memE map[string]bool
+
+	// writers counts the updates in flight. While there is one, the wrapped
+	// store may already hold part of it: nothing read meanwhile is memoized.
+	writers int
 }
 
 // ID returns the id for this graph.
@@ -140,6 +144,7 @@ func (g *graphMemoizer) ID(ctx context.Context) string {
 // exists should not fail.
 func (g *graphMemoizer) AddTriples(ctx context.Context, ts []*triple.Triple) error {
 	g.mu.Lock()
+	g.writers++
 	// Update operations reset the memoization.
 	g.memN = make(map[string][]*node.Node)
 	g.memP = make(map[string][]*predicate.Predicate)
@@ -163,6 +168,7 @@ func (g *graphMemoizer) AddTriples(ctx context.Context, ts []*triple.Triple) err
 // invalidate starts a new generation and empties the caches.
 func (g *graphMemoizer) invalidate() {
 	g.mu.Lock()
+	g.writers--
 	g.gen++
 	g.memN = make(map[string][]*node.Node)
 	g.memP = make(map[string][]*predicate.Predicate)
@@ -175,6 +181,7 @@ func (g *graphMemoizer) invalidate() {
 // are not present on the store should not fail.
 func (g *graphMemoizer) RemoveTriples(ctx context.Context, ts []*triple.Triple) error {
 	g.mu.Lock()
+	g.writers++
 	// Update operations reset the memoization.
 	g.memN = make(map[string][]*node.Node)
 	g.memP = make(map[string][]*predicate.Predicate)
@@ -282,7 +289,7 @@ func (g *graphMemoizer) Objects(ctx context.Context, s *node.Node, p *predicate.
 	g.mu.Lock()
 	// Only a lookup that went through is worth memoizing: a failed one may
 	// have delivered only part of the answer.
-	if err == nil && g.gen == gen {
+	if err == nil && g.writers == 0 && g.gen == gen {
 		g.memO[k] = mobjs
 	}
 	g.mu.Unlock()
@@ -366,7 +373,7 @@ func (g *graphMemoizer) Subjects(ctx context.Context, p *predicate.Predicate, o 
 	g.mu.Lock()
 	// Only a lookup that went through is worth memoizing: a failed one may
 	// have delivered only part of the answer.
-	if err == nil && g.gen == gen {
+	if err == nil && g.writers == 0 && g.gen == gen {
 		g.memN[k] = msubs
 	}
 	g.mu.Unlock()
@@ -440,7 +447,7 @@ func (g *graphMemoizer) PredicatesForSubject(ctx context.Context, s *node.Node, 
 	g.mu.Lock()
 	// Only a lookup that went through is worth memoizing: a failed one may
 	// have delivered only part of the answer.
-	if err == nil && g.gen == gen {
+	if err == nil && g.writers == 0 && g.gen == gen {
 		g.memP[k] = mpreds
 	}
 	g.mu.Unlock()
@@ -514,7 +521,7 @@ func (g *graphMemoizer) PredicatesForObject(ctx context.Context, o *triple.Objec
 	g.mu.Lock()
 	// Only a lookup that went through is worth memoizing: a failed one may
 	// have delivered only part of the answer.
-	if err == nil && g.gen == gen {
+	if err == nil && g.writers == 0 && g.gen == gen {
 		g.memP[k] = mpreds
 	}
 	g.mu.Unlock()
@@ -588,7 +595,7 @@ func (g *graphMemoizer) PredicatesForSubjectAndObject(ctx context.Context, s *no
 	g.mu.Lock()
 	// Only a lookup that went through is worth memoizing: a failed one may
 	// have delivered only part of the answer.
-	if err == nil && g.gen == gen {
+	if err == nil && g.writers == 0 && g.gen == gen {
 		g.memP[k] = mpreds
 	}
 	g.mu.Unlock()
@@ -662,7 +669,7 @@ func (g *graphMemoizer) TriplesForSubject(ctx context.Context, s *node.Node, lo 
 	g.mu.Lock()
 	// Only a lookup that went through is worth memoizing: a failed one may
 	// have delivered only part of the answer.
-	if err == nil && g.gen == gen {
+	if err == nil && g.writers == 0 && g.gen == gen {
 		g.memT[k] = mts
 	}
 	g.mu.Unlock()
@@ -736,7 +743,7 @@ func (g *graphMemoizer) TriplesForPredicate(ctx context.Context, p *predicate.Pr
 	g.mu.Lock()
 	// Only a lookup that went through is worth memoizing: a failed one may
 	// have delivered only part of the answer.
-	if err == nil && g.gen == gen {
+	if err == nil && g.writers == 0 && g.gen == gen {
 		g.memT[k] = mts
 	}
 	g.mu.Unlock()
@@ -810,7 +817,7 @@ func (g *graphMemoizer) TriplesForObject(ctx context.Context, o *triple.Object, 
 	g.mu.Lock()
 	// Only a lookup that went through is worth memoizing: a failed one may
 	// have delivered only part of the answer.
-	if err == nil && g.gen == gen {
+	if err == nil && g.writers == 0 && g.gen == gen {
 		g.memT[k] = mts
 	}
 	g.mu.Unlock()
@@ -884,7 +891,7 @@ func (g *graphMemoizer) TriplesForSubjectAndPredicate(ctx context.Context, s *no
 	g.mu.Lock()
 	// Only a lookup that went through is worth memoizing: a failed one may
 	// have delivered only part of the answer.
-	if err == nil && g.gen == gen {
+	if err == nil && g.writers == 0 && g.gen == gen {
 		g.memT[k] = mts
 	}
 	g.mu.Unlock()
@@ -958,7 +965,7 @@ func (g *graphMemoizer) TriplesForPredicateAndObject(ctx context.Context, p *pre
 	g.mu.Lock()
 	// Only a lookup that went through is worth memoizing: a failed one may
 	// have delivered only part of the answer.
-	if err == nil && g.gen == gen {
+	if err == nil && g.writers == 0 && g.gen == gen {
 		g.memT[k] = mts
 	}
 	g.mu.Unlock()
@@ -985,7 +992,7 @@ func (g *graphMemoizer) Exist(ctx context.Context, t *triple.Triple) (bool, erro
 	verifYield(ctx, "read:after-forward")
 	if err == nil {
 		g.mu.Lock()
-		if g.gen == gen {
+		if g.writers == 0 && g.gen == gen {
 			g.memE[k] = b
 		}
 		g.mu.Unlock()
@@ -1054,7 +1061,7 @@ func (g *graphMemoizer) Triples(ctx context.Context, lo *storage.LookupOptions, 
 	g.mu.Lock()
 	// Only a lookup that went through is worth memoizing: a failed one may
 	// have delivered only part of the answer.
-	if err == nil && g.gen == gen {
+	if err == nil && g.writers == 0 && g.gen == gen {
 		g.memT[k] = mts
 	}
 	g.mu.Unlock()
